@@ -313,6 +313,70 @@ fn run_positive(h: &mut Harness) -> Result<Vec<String>, String> {
     Ok(problems)
 }
 
+
+/// Where the password comes from: the configuration file, the command line, both or neither, combined with other
+/// command-line options - the configuration the server is built from must carry the command line's password if there
+/// is one and otherwise the file's (a seeded overlay of the command-line options wiped the file's requirepass whenever
+/// no password option was given, so a server configured through its file alone started without any password).
+fn config_sources() -> Vec<String> {
+    use ferrous::config::{CliArgs, Config};
+    let mut problems = Vec::new();
+    let dir = std::env::temp_dir().join(format!("vcheck-c17-conf-{}", std::process::id()));
+    let _ = std::fs::create_dir_all(&dir);
+    for file_pw in [None, Some("file-secret")] {
+        for with_file in [false, true] {
+            if file_pw.is_some() && !with_file {
+                continue;
+            }
+            for cli_pw in [None, Some("cli-secret")] {
+                for other in 0..4usize {
+                    let mut config = if with_file {
+                        let path = dir.join("ferrous.conf");
+                        let mut text = String::from("port 6390\n");
+                        if let Some(pw) = file_pw {
+                            text.push_str(&format!("requirepass {}\n", pw));
+                        }
+                        if std::fs::write(&path, text).is_err() {
+                            problems.push("machinery: cannot write the configuration file".to_string());
+                            continue;
+                        }
+                        match Config::from_file(&path) {
+                            Ok(c) => c,
+                            Err(e) => {
+                                problems.push(format!("configuration file refused: {}", e));
+                                continue;
+                            }
+                        }
+                    } else {
+                        Config::default()
+                    };
+                    let mut args = CliArgs::default();
+                    args.password = cli_pw.map(|s| s.to_string());
+                    match other {
+                        1 => args.port = Some(6391),
+                        2 => args.dir = Some(dir.to_string_lossy().to_string()),
+                        3 => args.appendonly = true,
+                        _ => {}
+                    }
+                    config.apply_cli_args(args);
+                    let want: Option<String> = cli_pw.or(file_pw).map(|s| s.to_string());
+                    if config.network.password != want {
+                        problems.push(format!("password from {}{}{}: the server would be built with {:?}, expected {:?}",
+                            if file_pw.is_some() { "the file" } else if with_file { "a file without requirepass" } else { "no file" },
+                            if cli_pw.is_some() { " and the command line" } else { "" },
+                            match other { 1 => " (--port given)", 2 => " (--dir given)", 3 => " (--appendonly given)", _ => "" },
+                            config.network.password.as_ref().map(|_| "a password"), want.as_ref().map(|_| "a password")));
+                    }
+                }
+            }
+        }
+    }
+    let _ = std::fs::remove_dir_all(&dir);
+    problems.sort();
+    problems.dedup();
+    problems
+}
+
 pub fn handle_factory() -> impl FnMut(&str, &Value, &mut WorkerIo) -> (Value, bool) {
     let mut h = Harness::new(SrvOpts { password: Some(PASSWORD.to_string()), ..Default::default() });
     move |_tier: &str, task: &Value, io: &mut WorkerIo| {
@@ -336,7 +400,8 @@ pub fn handle_factory() -> impl FnMut(&str, &Value, &mut WorkerIo) -> (Value, bo
                     Err(e) => recs.push(json!({"variant": n, "machinery_error": e})),
                 }
             }
-            let pos = run_positive(&mut h).unwrap_or_else(|e| vec![format!("machinery: {}", e)]);
+            let mut pos = run_positive(&mut h).unwrap_or_else(|e| vec![format!("machinery: {}", e)]);
+            pos.extend(config_sources());
             return (json!({"recs": recs, "positive": pos}), false);
         }
         let (a, b) = (task["range"][0].as_u64().unwrap_or(0) as usize, task["range"][1].as_u64().unwrap_or(0) as usize);
@@ -413,7 +478,7 @@ pub fn parent(tier: &str) -> i32 {
     println!("  c17: cases={} outcomes={:?}", evaluations, outcomes);
     report.coverage = json!({
         "evaluations": evaluations, "distinct_nontrivial": distinct.len(),
-        "rule": "complete product: every dispatched command name (table + scraped from the source, incl. SYNC, PSYNC, REPLCONF, MONITOR, (P)SUBSCRIBE, EVAL, MULTI/EXEC, SHUTDOWN, CONFIG, CLIENT) with plausible arguments addressing the sentinel data x 10 positions (first on a new connection; after a failed AUTH; second in one write after PING; in one write before a correct AUTH; lower case; mixed case; after leading CRLF/space; between MULTI and EXEC; while the connection is being killed by an authenticated client's CLIENT KILL in the same loop iteration, visited after and before the killer), plus every proper prefix / one-byte extension / case flip / binary / 1 MiB variant of the password, plus the positive cases. After every case: reply is an error, no later unsolicited bytes, internal dump of all 16 dbs, pub/sub tables, replica list, monitor list and the connection's own state unchanged, server alive.",
+        "rule": "complete product: every dispatched command name (table + scraped from the source, incl. SYNC, PSYNC, REPLCONF, MONITOR, (P)SUBSCRIBE, EVAL, MULTI/EXEC, SHUTDOWN, CONFIG, CLIENT) with plausible arguments addressing the sentinel data x 10 positions (first on a new connection; after a failed AUTH; second in one write after PING; in one write before a correct AUTH; lower case; mixed case; after leading CRLF/space; between MULTI and EXEC; while the connection is being killed by an authenticated client's CLIENT KILL in the same loop iteration, visited after and before the killer), plus every proper prefix / one-byte extension / case flip / binary / 1 MiB variant of the password, plus the positive cases, plus the sources of the password (configuration file / command line / both / neither x 4 sets of other command-line options: the configuration the server is built from carries the command line's password if given, else the file's). After every case: reply is an error, no later unsolicited bytes, internal dump of all 16 dbs, pub/sub tables, replica list, monitor list and the connection's own state unchanged, server alive.",
         "samples": samples, "exhaustive": true, "outcomes": outcomes.iter().cloned().collect::<Vec<_>>(), "positions": POSITIONS,
     });
     report.assumptions = vec!["PING and QUIT are the only commands besides AUTH that may be answered before authentication (as the property states)".into()];
